@@ -143,7 +143,11 @@ class Driver(object):
     def apply(self, op):
         kind = op["op"]
         rec = {"op": op, "before": self.status(), "offers": [], "rejected": False}
-        if kind in ("done", "report") and list(op["a"]) in self.unstarted:
+        if kind == "report" and op["status"] == st.PENDING and list(op["a"]) in self.unstarted:
+            # the first report of the action is `pending` (an inquiry): nothing precedes it
+            self.unstarted.remove(list(op["a"]))
+            self._first[tuple(op["a"])].pop(0)
+        elif kind in ("done", "report") and list(op["a"]) in self.unstarted:
             self.begin(list(op["a"]))
         if kind == "begin":
             if list(op["a"]) in self.unstarted:
